@@ -83,9 +83,22 @@ def run_cases(binary, cases, timeout=600, args=()):
     return out, p.stderr
 
 
+def _big_stack():
+    import resource
+    try:
+        resource.setrlimit(resource.RLIMIT_STACK, (resource.RLIM_INFINITY, resource.RLIM_INFINITY))
+    except Exception:
+        try:
+            soft, hard = resource.getrlimit(resource.RLIMIT_STACK)
+            resource.setrlimit(resource.RLIMIT_STACK, (hard, hard))
+        except Exception:
+            pass
+
+
 def run_lines(binary, lines, timeout=600, args=()):
+    # the extracted models recurse over long lists: give them the largest stack available
     p = subprocess.run([binary] + list(args), input="\n".join(lines) + "\n", stdout=subprocess.PIPE,
-                       stderr=subprocess.PIPE, text=True, timeout=timeout)
+                       stderr=subprocess.PIPE, text=True, timeout=timeout, preexec_fn=_big_stack)
     return p.stdout.split("\n"), p.stderr
 
 
